@@ -65,6 +65,18 @@ Theorem C13_write_confined_file_and_dir :
 Proof. exact pkg_write1_confined. Qed.
 Print Assumptions C13_write_confined_file_and_dir.
 
+(* … stated for the path that is actually written, i.e. after kioutil.DefaultPathAndIndexAnnotation:
+   copied legacy annotation, or the default path made from metadata.namespace / kind / name when the
+   resource has no path annotation — for ALL values of these strings *)
+Theorem C13_write_confined_effective_path :
+  forall pc (r : pkg_res) d f,
+    canon_comps pc = true ->
+    pkg_write_res (abs_of pc) r = Ok (d, f) ->
+    exists rest, rest <> [] /\ canon_comps rest = true /\
+                 f = abs_of (pc ++ rest)%list /\ d = abs_of (pc ++ removelast rest)%list.
+Proof. exact pkg_write_res_confined. Qed.
+Print Assumptions C13_write_confined_effective_path.
+
 (* a batch is rejected as a whole or all of its targets are inside *)
 Theorem C13_write_confined_batch :
   forall pc anns ps,
